@@ -238,7 +238,8 @@ def d_func(t, al):
         raise Unsupported("function class %r" % c)
     out = {"k": "func", "name": _optstr(t.name), "alias": al, "args": [d_term(a) for a in t.args],
            "distinct": bool(getattr(t, "_distinct", False)) if isinstance(t, fn.DistinctOptionFunction) else False,
-           "schema": None, "special": None, "extract_from": None, "filters": None, "over": None, "frame": None,
+           "schema": None, "special": None, "extract_from": None, "filter": None, "over": False, "partition": [],
+           "over_order": [], "frame": None,
            "no_parens": isinstance(t, fn.CurTimestamp)}
     if t.schema is not None:
         out["schema"] = schema_chain(t.schema)
@@ -249,12 +250,14 @@ def d_func(t, al):
         if sp:
             out["special"] = sp
     if isinstance(t, T.AggregateFunction) and t._include_filter:
-        out["filters"] = [d_term(T.Criterion.all(t._filters))]
+        out["filter"] = d_term(T.Criterion.all(t._filters))
     if isinstance(t, T.AnalyticFunction) and t._include_over:
         part = []
         for p in t._partition:
             part.append(d_term(p) if hasattr(p, "get_sql") else {"k": "lit", "text": str(p), "alias": None})
-        out["over"] = {"partition": part, "orderbys": [[d_term(f), d_ord(o)] for f, o in t._orderbys]}
+        out["over"] = True
+        out["partition"] = part
+        out["over_order"] = [[d_term(f), d_ord(o)] for f, o in t._orderbys]
         if isinstance(t, T.WindowFrameAnalyticFunction) and (t.frame or t.bound):
             b = t.bound
             if isinstance(b, tuple):
@@ -267,12 +270,12 @@ def d_func(t, al):
 
 def d_src(s):
     if isinstance(s, Q.Table):
-        tmp = None
+        portion, tmp = False, None
         if s._for:
-            tmp = {"portion": False, "crit": d_term(s._for)}
+            tmp = d_term(s._for)
         elif s._for_portion:
-            tmp = {"portion": True, "crit": d_term(s._for_portion)}
-        return {"k": "table", "t": d_tref(s), "temporal": tmp}
+            portion, tmp = True, d_term(s._for_portion)
+        return {"k": "table", "t": d_tref(s), "portion": portion, "temporal": tmp}
     if isinstance(s, Q.QueryBuilder):
         return {"k": "query", "q": d_query(s)}
     if isinstance(s, Q._SetOperation):
